@@ -1,4 +1,5 @@
 import ast
+import math
 import re
 
 from excel2pycl.src.context import Context
@@ -40,7 +41,11 @@ class LambdaTokenTranslator(AbstractTranslator):
 
                 if re.fullmatch(r'([0-9]+)((\.)([0-9]+))?(e(-?[0-9]+))?', operand):
                     # the number the text denotes, written as python writes it: ">007" is > 7 (007 is no python number)
-                    condition_value = repr(int(operand) if operand.isdigit() else float(operand))
+                    number = float(operand)
+                    if operand.isdigit() and len(operand) <= 300:
+                        number = int(operand)
+                    # a number beyond the doubles (">1e999") is an infinity: repr() of it is a name, not a literal
+                    condition_value = repr(number) if math.isfinite(number) else f'float({repr(str(number))})'
                 elif operand:
                     condition_value = repr(cls._without_escapes(operand))
                 else:
